@@ -5,6 +5,7 @@ import (
 	"fmt"
 	"net"
 	"strings"
+	"time"
 
 	"github.com/codelaboratoryltd/bng/pkg/allocator"
 	"github.com/codelaboratoryltd/bng/pkg/state"
@@ -25,7 +26,7 @@ import (
 var (
 	xMACs = []net.HardwareAddr{{2, 0, 0, 0, 1, 1}, {2, 0, 0, 0, 1, 2}, {2, 0, 0, 0, 1, 3}}
 	xIPs  = []net.IP{net.IPv4(10, 1, 0, 1).To4(), net.IPv4(10, 1, 0, 2).To4(), net.IPv4(10, 1, 0, 3).To4()}
-	xEnts = []string{"e1", "e2"}
+	xEnts = []string{"e1", "e2", "e3"}
 )
 
 // adapter: one real indexed store.
@@ -59,6 +60,7 @@ func ipIdx(p net.IP) int {
 }
 
 type idxSys struct {
+	ents  []string
 	a     adapter
 	name  string
 	last  string // name of the last operation (site prefix of the state invariants)
@@ -71,7 +73,7 @@ func (s *idxSys) v(kind, site, f string, a ...any) {
 
 func (s *idxSys) usedKeys() (macs, ips map[int]string) {
 	macs, ips = map[int]string{}, map[int]string{}
-	for _, e := range xEnts {
+	for _, e := range s.ents {
 		if m, i, ok := s.a.primary(e); ok {
 			if m >= 0 {
 				macs[m] = e
@@ -91,7 +93,7 @@ func (s *idxSys) Ops() []string {
 	if !s.a.hasMAC() {
 		nm = 1
 	}
-	for _, e := range xEnts {
+	for _, e := range s.ents {
 		cm, ci, live := s.a.primary(e)
 		if !live {
 			for m := 0; m < nm; m++ {
@@ -168,7 +170,7 @@ func (s *idxSys) Fingerprint() string { return s.a.dump() }
 func (s *idxSys) Check() []explore.Viol {
 	macs, ips := s.usedKeys()
 	// forward -> reverse: a live record's keys lead back to it
-	for _, e := range xEnts {
+	for _, e := range s.ents {
 		m, i, ok := s.a.primary(e)
 		if !ok {
 			continue
@@ -476,9 +478,11 @@ func (a *memStore) byIP(i int) (string, string) {
 }
 func (a *memStore) dump() string { return deepdump.Dump(a.s, deepdump.Options{IgnoreTimes: true}) }
 
-func idxModels(depth int) []*explore.Model {
+func idxModels(depth, nEnts int) []*explore.Model {
 	mk := func(cfg string, f func() adapter) *explore.Model {
-		return &explore.Model{Name: "index", Config: cfg, New: func() explore.System { return &idxSys{a: f(), name: cfg} }, Depth: depth, Classify: classify}
+		// the Config string stays the adapter name (classify and replay key on it); the record count is in the bound
+		return &explore.Model{Name: "index", Config: cfg, New: func() explore.System { return &idxSys{a: f(), name: cfg, ents: xEnts[:nEnts]} },
+			Depth: depth, Classify: classify, Budget: 5 * time.Minute}
 	}
 	return []*explore.Model{
 		mk("state.Store sessions", func() adapter { return &stSessions{newStateStore()} }),
